@@ -25,6 +25,8 @@ def cases(tier):
           5: ['qtreetbl_putobj', 'qtreetbl_getobj', 'qtreetbl_removeobj', 'qtreetbl_clear', 'qtreetbl_lock', 'qtreetbl_unlock']}
     for cont, name in ((3, 'listtbl'), (4, 'hashtbl'), (5, 'tree')):
         for (a, b) in MPAIRS:
+            if cont == 5 and tier == 'quick' and not (b in ('GET', 'SIZE') and a in ('PUT', 'REMOVE', 'CLEAR')):
+                continue   # tree: pairs with two mutators are heavy (two symbolic restructurings): thorough tier only
             for n0 in ((1,) if (cont == 5 and tier == 'quick') else (1, 2)):
                 for (x, y) in ((a, b), (b, a)) if a != b else ((a, b),):
                     out.append(Case('c13.%s.%s_%s.n%d' % (name, x, y, n0), 'schedmap.c', {'VF_CONT': cont, 'VF_OP1': MOPS[x], 'VF_OP2': MOPS[y], 'VF_N0': n0}, unwind=8,
